@@ -44,7 +44,7 @@ CHECKS = {
  "C19": dict(
    engine="simcheck (simulated disk with fault plan + reference mesh model)",
    technique="deterministic simulation: histories of mesh operations against a reference model, with the file system behind Mesh1D::output/read replaced by a seeded fault-injecting in-memory disk (short/EINTR/failed/zero writes, short/EINTR/failed reads, refused create/open); seeded search with shrinking",
-   text="Real Mesh1D/Mesh2D code under seeded histories of 5..40 operations (set/get/Index/IndexMut, interpolation at nodes / mid-cell / interior points, 1-D and 2-D trapezium with exact and closed-form oracles, assign/apply, cross-sections that join the pool of live meshes, a sibling 2-D mesh of equal extents swapped in and out, var_as_matrix, output and read into fresh/shorter/longer/live meshes; grids up to 2^13 from the origin; interpolation points as close as 1e-6 to a node), mirrored by a reference model and compared through every access path after every step. output/read run their real formatting, write_all, read_to_string and parsing against a simulated disk that injects transient faults (which must be absorbed: full round trip required) and hard faults (after which the call may refuse by panicking; flagged are acknowledged-but-wrong files, reads that return wrong data, a changed writer). Repeated under 2- and 3-CPU affinity. Seeded sampling of histories and fault placements, not proof. Since rounds 9-11: stretched grids (cell widths 1/8..12288 side by side), offsets up to 2^30, 1-D meshes of 100-300 nodes, query points 1e-6*2^j from a node and nodes at zero asked for with the other sign, twelve-digit integer values, apply() with a callback that panics at its k-th node (model re-read from the mesh), and a file seam that also covers rename / remove_file / exists / copy / OpenOptions. Since round 13: 12 % of the reads are preceded, on the same reader object, by a read of a file that output() did not write (comment line in the middle, cut inside a number, header line, cut at a token boundary; outcome ignored, usually a caught panic) — the judged read that follows must still reproduce the acknowledged file.",
+   text="Real Mesh1D/Mesh2D code under seeded histories of 5..40 operations (set/get/Index/IndexMut, interpolation at nodes / mid-cell / interior points, 1-D and 2-D trapezium with exact and closed-form oracles, assign/apply, cross-sections that join the pool of live meshes, a sibling 2-D mesh of equal extents swapped in and out, var_as_matrix, output and read into fresh/shorter/longer/live meshes; grids up to 2^13 from the origin; interpolation points as close as 1e-6 to a node), mirrored by a reference model and compared through every access path after every step. output/read run their real formatting, write_all, read_to_string and parsing against a simulated disk that injects transient faults (which must be absorbed: full round trip required) and hard faults (after which the call may refuse by panicking; flagged are acknowledged-but-wrong files, reads that return wrong data, a changed writer). Repeated under 2- and 3-CPU affinity. Seeded sampling of histories and fault placements, not proof. Since rounds 9-11: stretched grids (cell widths 1/8..12288 side by side), offsets up to 2^30, 1-D meshes of 100-300 nodes, query points 1e-6*2^j from a node and nodes at zero asked for with the other sign, twelve-digit integer values, apply() with a callback that panics at its k-th node (model re-read from the mesh), and a file seam that also covers rename / remove_file / exists / copy / OpenOptions. Since round 13: 12 % of the reads are preceded, on the same reader object, by a read of a file that output() did not write (comment line in the middle, cut inside a number, header line, cut at a token boundary; outcome ignored, usually a caught panic) — the judged read that follows must still reproduce the acknowledged file. A reader refused after a hard fault retries once fault-free; if that call returns it must reproduce the file.",
    design="§4.2",
    note="Trusted: the in-memory disk's model of create(truncate)/write/read/close; that short transfers and EINTR are legal for successful calls; tolerances for printed precision and rounded quadrature/interpolation; crash/torn-write/bit-flip faults are deliberately not injected (the property claims no durability)."),
 }
